@@ -116,6 +116,12 @@ def sort_key(sort):
     return str(sort)
 
 
+# write sets of loop bodies, collected by a first exploration of all paths (run.verify_function): a heap map that no path
+# through a loop body writes keeps its value across the loop, also for objects the function itself allocated
+LOOP_MODE = ["use"]
+LOOP_WRITES = {}
+
+
 class Ex:
     """One symbolic execution of one path."""
 
@@ -690,8 +696,17 @@ class Ex:
         # havoc
         mods = ls.get("modifies")
         con = fr.contract
+        lkey = (fr.fi.qual if fr.fi else "?", k)
+        local_frame = ls.get("local_frame")
+        if local_frame is not None and ls.get("acc"):
+            at_ = T(ls["acc_type"])
+            local_frame = list(local_frame) + [(f"$list<{self.part(at_.args[0])}>", f"o == {ls['acc']}")]
+        entry_alloc = self.alloc
         speceval.havoc(self, fr, mods if mods is not None else (con.modifies if con else []), f"loop{k}",
-                       base_alloc=(fr.old[1] if fr.old is not None else None))
+                       base_alloc=(fr.old[1] if fr.old is not None else None),
+                       written=(None if LOOP_MODE[0] == "collect" else LOOP_WRITES.get(lkey, set())), collect=LOOP_MODE[0] == "collect",
+                       local_frame=local_frame)
+        head_maps = dict(self.heap)
         self.havoc_locals(names, fr, f"l{k}")
         if extra_locals:
             extra_locals(fr)
@@ -704,12 +719,26 @@ class Ex:
             saved_head = getattr(fr, "loop_head", None)
             fr.loop_head = (self.snapshot(), dict(fr.locals))
             try:
-                body_fn(fr)
+                try:
+                    body_fn(fr)
+                finally:
+                    # which heap maps does the body write (directly, through callee frames, through inner loops)?
+                    changed = {key for key, m in self.heap.items() if key not in head_maps or m.get_id() != head_maps[key].get_id()}
+                    if LOOP_MODE[0] == "collect":
+                        LOOP_WRITES.setdefault(lkey, set()).update(changed)
+                    else:
+                        extra_w = changed - LOOP_WRITES.get(lkey, set()) - set(getattr(self, "_loop_frame_keys", {}).get(lkey, ()))
+                        if extra_w:
+                            self.loop_write_escape = (lkey, sorted(extra_w))
             except ContinueEx:
                 pass
             except BreakEx:
                 fr.loop_head = saved_head
                 return
+            if local_frame is not None:
+                speceval.loop_frame_obligations(self, fr, local_frame, head_maps, entry_alloc,
+                                                fr.old[1] if fr.old is not None else None, loc, str(k),
+                                                set(con.tags) if con is not None else set())
             # proof hints: lemmas proved at the end of the body, then available to the invariant obligations
             for c in ls.get("hints", []):
                 gl = speceval.clause(self, c, fr, loop_entry=(entry, entry_locals))
